@@ -1,5 +1,5 @@
 """C11 — CVec is observationally a Vec.
-Case format: '11 <elem> | op ; op ; ...'  elem: 0=1-byte 1=8-byte 2=heap-owning(Box) 3=zero-sized 4=3-byte 5=64 bytes aligned to 64 6=8 bytes whose Clone panics for values ending in 13;
+Case format: '11 <elem> [1 = foreign stored functions] | op ; op ; ...'  elem: 0=1-byte 1=8-byte 2=heap-owning(Box) 3=zero-sized 4=3-byte 5=64 bytes aligned to 64 6=8 bytes whose Clone panics for values ending in 13;
 ops: '0 x' push, '1' pop, '2 i x' insert, '3 i' remove, '4 n' reserve, '5' clone-and-replace (old dropped),
 '6 i x' v[i]=x, '7 spare x..' replace by CVec::from(Vec with spare capacity), '8' read.
 Output rows come in pairs per op: result row ('.. 9' = panicked) and the values whose destructor ran, in order;
@@ -121,6 +121,14 @@ def gen_cases(rng, tier):
             t = op.split()[0]
             opk[t] = opk.get(t, 0) + 1
     dist["random_op_kinds"] = opk
+    # the same histories on a vector whose stored functions are FOREIGN ('11 <elem> 1 | ..': recording wrappers installed through the published
+    # five-field layout): growth only through reserve_fn, release through exactly one drop_fn(data, len, capacity) call with the vector's own values
+    r2 = rng.fork("foreign")
+    nfor = {"quick": 400, "search": 600}.get(tier, 5000)
+    for k in range(nfor):
+        c = random_script(r2, maxlen, ELEMS[k % len(ELEMS)])
+        cases.append(c.replace(" | ", " 1 | ", 1))
+    dist["foreign_function_histories"] = nfor
     return cases, dist
 
 
